@@ -425,6 +425,9 @@ def check_c14(rec, doc, seed_info, r):
   import ttconv.vtt.writer as vtt_writer
   import ttconv.imsc.writer as imsc_writer
   import xml.etree.ElementTree as et
+  from ttconv.srt.config import SRTWriterConfiguration
+  from ttconv.vtt.config import VTTWriterConfiguration
+  from ttconv.imsc.config import IMSCWriterConfiguration, TimeExpressionSyntaxEnum
   t0 = ts[len(ts) // 2] if ts else Fraction(0)
   calls = {
     "significant_times": lambda: tuple(ISD.significant_times(doc)),
@@ -434,11 +437,17 @@ def check_c14(rec, doc, seed_info, r):
     "srt": lambda: srt_writer.from_model(doc),
     "vtt": lambda: vtt_writer.from_model(doc),
     "imsc": lambda: et.tostring(imsc_writer.from_model(doc).getroot()),
+    # the writers under their non-default configurations (a configuration must not make a writer edit its input)
+    "srt(text_formatting=False)": lambda: srt_writer.from_model(doc, SRTWriterConfiguration(text_formatting=False)),
+    "vtt(line_position,text_align)": lambda: vtt_writer.from_model(doc, VTTWriterConfiguration(line_position=True, text_align=True, cue_id=False)),
+    "imsc(frames@25)": lambda: et.tostring(imsc_writer.from_model(doc, IMSCWriterConfiguration(time_format=TimeExpressionSyntaxEnum.frames, fps=Fraction(25))).getroot()),
+    "imsc(clock_time_with_frames@30000/1001)": lambda: et.tostring(imsc_writer.from_model(
+      doc, IMSCWriterConfiguration(time_format=TimeExpressionSyntaxEnum.clock_time_with_frames, fps=Fraction(30000, 1001))).getroot()),
   }
   names = sorted(calls)
   first = {}
   for _ in range(2):
-    order = [r.choice(names) for _ in range(4)]
+    order = [r.choice(names) for _ in range(6)]
     for n in order:
       try:
         res = calls[n]()
